@@ -1,22 +1,13 @@
 #!/bin/bash
-# run every stored seeded change against the check of its own property (if registered); summary in seeded/RESULTS.md
+# run every stored seeded change against the check of its own property; summary in seeded/RESULTS.md
+#   tools/seed_all.sh [--all]          only those without a recorded result (or all of them)
+#   SHARD=i/K tools/seed_all.sh --all  the i-th of K interleaved shards (no summary); finish with tools/seed_results.py
 cd /verif
-for d in seeded/*/; do n=$(basename $d); p=${n%%_*}; [ -f checks/$(echo $p | tr A-Z a-z).py ] || continue
+I=0; K=1
+if [ -n "${SHARD:-}" ]; then I=${SHARD%/*}; K=${SHARD#*/}; fi
+n=0
+for d in seeded/*/; do name=$(basename $d); p=${name%%_*}; [ -f checks/$(echo $p | tr A-Z a-z).py ] || continue
+  n=$((n+1)); [ $((n % K)) -eq $I ] || continue
   if [ "${1:-}" != "--all" ] && grep -q "\"$p\": {" $d/meta.json 2>/dev/null; then continue; fi
-  tools/seed_check.sh $n $p; done
-/venv/bin/python - <<'PY'
-import json, glob, os
-rows=[]
-for f in sorted(glob.glob('/verif/seeded/*/meta.json')):
-    m=json.load(open(f)); p=m['property']
-    ck=m.get('checks',{}).get(p)
-    first = m.get('reported_before_the_check_was_strengthened_for_wave_2')
-    rows.append((m['name'], p, m.get('wave', 1), 'DETECTED' if ck and ck['detected'] else ('not detected' if ck else 'check not built yet'),
-                 {None: 'see DESIGN 8.5', True: 'yes', False: 'no - check strengthened'}[first], ', '.join(ck['fingerprints']) if ck else ''))
-with open('/verif/seeded/RESULTS.md','w') as f:
-    f.write('# Seeded changes vs. the check of their own property (quick tier, current checks)\n\n'
-            '| seeded change | property | wave | result now | reported as first delivered? | fingerprints |\n|---|---|---|---|---|---|\n')
-    for r in rows: f.write('| %s | %s | %s | %s | %s | %s |\n' % r)
-    f.write('\n%d seeded changes, %d detected by the current quick tier.\n' % (len(rows), sum(r[3] == 'DETECTED' for r in rows)))
-print(open('/verif/seeded/RESULTS.md').read())
-PY
+  tools/seed_check.sh $name $p; done
+[ -n "${SHARD:-}" ] || /venv/bin/python tools/seed_results.py
